@@ -204,29 +204,44 @@ fn lc_regime_exact(b: usize) -> (u64, Vec<Viol>, serde_json::Value) {
             build(b, r).count() as f64
         };
         let c1 = mk(1, true);
-        let indep = c1 == mk(3, true) && c1 == mk(maxrank, true) && c1 == mk(2, false);
+        // large register files: two constructions instead of four (each costs O(m))
+        let indep = if b >= 15 { c1 == mk(maxrank, false) } else { c1 == mk(3, true) && c1 == mk(maxrank, true) && c1 == mk(2, false) };
         cnt[j] = Some(if indep { c1 } else { f64::NAN });
         if indep { Some(c1) } else { None }
     };
-    let mut p = vec![0.0f64; m + 1];
+    // occupancy law, kept on the window [lo, hi] of entries above 1e-18 (the mass dropped per layer is below 2e-18)
+    let mut p = vec![0.0f64; m + 2];
     p[0] = 1.0;
+    let (mut lo, mut hi) = (0usize, 0usize);
     let mut viols: Vec<Viol> = vec![];
     let mut layers = 0u64;
     let mut worst = (0.0f64, 0.0f64, 0.0f64, 0usize); // rms/sigma, |mean|/sigma, tail, n
-    let n_max = 3 * m;
+    // the unchanged tree leaves the rank-independent regime at its hand-over threshold (0.6 m .. 1.4 m); a threshold that is too
+    // large keeps it in linear counting, whose error then grows beyond relative_error(): follow it up to 6 m
+    let n_max = 6 * m;
     let mut last_n = 0;
     'outer: for n in 1..=n_max {
-        // one more distinct hash
-        let mut q = vec![0.0f64; m + 1];
-        for j in 0..=m.min(n - 1) {
-            if p[j] == 0.0 { continue; }
-            q[j] += p[j] * (j as f64 / mf);
-            if j < m { q[j + 1] += p[j] * ((m - j) as f64 / mf); }
+        // one more distinct hash: p'[j] = p[j] j/m + p[j-1] (m-j+1)/m, in place from the top
+        hi = (hi + 1).min(m);
+        for j in (lo..=hi).rev() {
+            let stay = p[j] * (j as f64 / mf);
+            let come = if j > 0 { p[j - 1] * ((m - j + 1) as f64 / mf) } else { 0.0 };
+            p[j] = stay + come;
         }
-        p = q;
+        while lo < hi && p[lo] < 1e-18 {
+            p[lo] = 0.0;
+            lo += 1;
+        }
+        while hi > lo && p[hi] < 1e-18 {
+            p[hi] = 0.0;
+            hi -= 1;
+        }
+        if !viols.is_empty() && n % (m / 4).max(1) == 0 {
+            break;
+        }
         // moments of the relative error, exact over the occupancy law
         let (mut mean, mut ms, mut tail, mut mass) = (0.0f64, 0.0f64, 0.0f64, 0.0f64);
-        for j in 0..=m.min(n) {
+        for j in lo..=hi {
             if p[j] < 1e-13 { continue; }
             match eval(j, &mut cnt) {
                 None => break 'outer, // beyond the rank-independent regime: stop (not decided here)
@@ -398,8 +413,9 @@ fn main() {
             run.violation(v);
         }
     }
-    // part 3: exact distribution in the linear-counting regime for b <= 11 (quick: <= 9)
-    let bs3: Vec<usize> = (4..=if thorough { 11 } else { 9 }).collect();
+    // part 3: exact distribution in the linear-counting regime for every b (quick: b <= 14; the cost is one count() on a
+    // register file of 2^b bytes per occupancy level that carries mass), largest first
+    let bs3: Vec<usize> = (4..=if thorough { 18 } else { 14 }).rev().collect();
     let res3 = par_map(&bs3, n_threads(), |&b| lc_regime_exact(b));
     let mut lc_rows = vec![];
     let mut n_lc = 0u64;
